@@ -5,7 +5,49 @@ CONFIG = {
         "name": "catchup", "pkg": "./catchup/", "run": "^TestVerifC30$",
         "files": ["catchup/zz_verif_c30_test.go"],
         "util": [("catchup", "catchup")],
-        "env": {"quick": {"VERIF_C30_N": 250, "VERIF_C30_ROUNDS": 8}, "thorough": {"VERIF_C30_N": 4000, "VERIF_C30_ROUNDS": 14}},
+        "env": {"quick": {"VERIF_C30_N": 300, "VERIF_C30_ROUNDS": 8},
+                "thorough": {"VERIF_C30_N": 6000, "VERIF_C30_ROUNDS": 14}},
         "timeout": {"quick": 600, "thorough": 3000},
     }],
+    "level": "proof",
+    "level_note": "partial: goroutine scheduling is abstracted to interleavings of the model's atomic steps; the block authenticator "
+                  "is an oracle (round + digest claim as in agreement/certificate.go, genuine-bundle mark) and the ledger is a monitor "
+                  "with the real ledger's accept/reject rule and error values",
+    "rule": "a case = one run of the REAL Service.pipelinedFetch (fetchAndWrite goroutines, innerFetch, universalBlockFetcher, "
+            "processBlockBytes, class-based peer selectors) against 1-3 in-process adversarial UnicastPeers that answer the k-th request "
+            "for a round with the k-th entry of a seeded script: transport error, no-block, undecodable bytes, genuine pair of another "
+            "(past / future / random) round, right block with the certificate of another round, certificate committing to another digest, "
+            "authentic header with payset removed / added (genuine certificate still matches), forged self-consistent block with the "
+            "genuine certificate / with a made-up certificate, real block with made-up certificate, unknown protocol version, or the "
+            "authentic pair; seeded delays 0-15 ms so that answers arrive out of order; parallelism 1-16, seed lookback 1-3, ledger "
+            "starting at round 0-3, 1-8 (thorough 14) scripted rounds; 2 in 5 cases with CatchupVerifyCertificate / "
+            "CatchupVerifyPaysetHash off or validate mode on; special modes: a second writer (agreement) racing catchup, service "
+            "cancellation mid-run, busy ledger, SetDisableSyncRound, ledger evaluation failure, 520 failing answers (retry limit). "
+            "The monitoring ledger logs every AddBlock/Validate/AddValidatedBlock call (round, latest before, result, and "
+            "ContentsMatchHeader + authenticator oracle recomputed on the pair it was handed); spec_ok is evaluated on that log. "
+            "The whole mutex-ordered event log (peer answers, Authenticate calls, ledger calls) is replayed through the model's step "
+            "function in its real order (trace validation) and, when the outcome is schedule independent, the final ledger is compared "
+            "with the model's prediction from the script. Non-trivial = catchup wrote at least one block and at least one served "
+            "answer was bad; distinct = distinct case lines.",
+    "exhaustive": {"quick": False, "thorough": False},
+    "explanation": "theorems: every configuration, every number of workers, every peer behaviour (arbitrary (block, cert) pairs or errors per "
+                   "request), every interleaving of the atomic steps, cancellation at any point and a concurrent second writer; abstract "
+                   "ContentsMatchHeader / Authenticate / round functions. The cases are testing of the model-code correspondence only.",
+    "assumptions": [
+        "goroutines of the service interact only through the atomic steps of the model (channel receives, ledger calls under the ledger's "
+        "lock, Authenticate, peer requests); Go memory model for channels/mutexes",
+        "the ledger accepts a block only for latest+1 (ledger.AddBlock / blockQueue.putBlock; the monitor ledger of the harness implements "
+        "exactly this rule and returns the real ledger's error types)",
+        "BlockAuthenticator.Authenticate is a function of the (block, cert) pair (it also reads the ledger for balances of older rounds, "
+        "which catchup has written by then: the lookback wait)",
+        "'the authentic block' (C30_written_is_agreed) needs: a certificate authenticates at most the agreed block of its round (C01/C02)",
+    ],
+    "trusted_base": [
+        "modelled: catchup/service.go fetchAndWrite + pipelinedFetch + innerFetch, universalFetcher.go processBlockBytes as a pc machine "
+        "per worker (coq/model/Catchup.v); time-dependent parallelism limit over-approximated by its maximum; peer selection = adversary",
+        "not modelled: fetchRound/syncCert (EnsureBlock path, one round, certificate given by agreement), periodicSync, "
+        "unsupportedRoundMonitor (only its effect: cancellation), peer ranking, telemetry",
+        "harness authenticator oracle and monitoring ledger (harness/go/catchup/zz_verif_c30_test.go); the real agreement bundle "
+        "verification is not exercised here",
+    ],
 }
